@@ -238,6 +238,20 @@ def e2e_post(lines, kind, floors):
     return out
 
 
+def _same_node_sharded(e):
+    """consecutive frames of one request on one node, in scenarios whose nodes have shards"""
+    n = 0
+    for ln in e:
+        if not re.search(r"\| env:\d+:rp\d+:sh[1-9]", ln):
+            continue
+        for t in ln.split("|", 1)[1].split():
+            if not t.startswith("R;") or _fld(t, "fr") == "-":
+                continue
+            fr = [f.split("/")[0] for f in _fld(t, "fr").split(",")]
+            n += sum(1 for a, b in zip(fr, fr[1:]) if a == b)
+    return n
+
+
 def _nframes(t):
     return 0 if _fld(t, "fr") == "-" else len(_fld(t, "fr").split(","))
 
@@ -250,6 +264,7 @@ E6_FLOORS = [
     ("with a cut connection", lambda t: "/drop" in t, 15),
     ("at a serial consistency", lambda t: _fld(t, "cl") in ("Serial", "LocalSerial"), 40),
     ("that failed", lambda t: _fld(t, "res").startswith("X"), 150),
+    ("ended by the client-side request timeout", lambda t: _fld(t, "res") == "timeout", 10),
 ]
 
 
@@ -275,6 +290,9 @@ def e2e_coverage(lines, kind):
             1 for t in recs if fld(t, "idem") == "1" and fld(t, "spec") != "-"),
         "e2e_requests_with_a_cut_connection": sum(1 for t in recs if "/drop" in t),
         "e2e_requests_with_max_retry_count_0": sum(1 for t in recs if fld(t, "spec").startswith("0:")),
+        "e2e_requests_ended_by_client_timeout": sum(1 for t in recs if fld(t, "res") == "timeout"),
+        "e2e_scenarios_on_sharded_nodes": sum(1 for ln in e if re.search(r"\| env:\d+:rp\d+:sh[1-9]", ln)),
+        "e2e_same_node_retries_on_sharded_nodes": _same_node_sharded(e),
         "e2e_in_attempt_reprepares_merged": sum(int(m.group(1)) for ln in e for m in [re.search(r"\| env:\d+:rp(\d+)", ln)] if m),
     }
 
@@ -295,6 +313,12 @@ def post(lines, verdicts):
         rp = sum(int(m.group(1)) for ln in lines if ln.startswith("E6 ") for m in [re.search(r"\| env:\d+:rp(\d+)", ln)] if m)
         if rp < 5:
             out.append(("diff", "E6", "diff e2e floor: %d in-attempt re-prepares (UNPREPARED + re-execute) observed (floor 5)" % rp))
+        e6 = _e2e(lines, "E6")
+        sh = sum(1 for ln in e6 if re.search(r"\| env:\d+:rp\d+:sh[1-9]", ln))
+        if sh < 40:
+            out.append(("diff", "E6", "diff e2e floor: %d scenarios on sharded nodes (floor 40)" % sh))
+        if _same_node_sharded(e6) < 10:
+            out.append(("diff", "E6", "diff e2e floor: %d same-node retries on sharded nodes (floor 10)" % _same_node_sharded(e6)))
     return out
 
 
@@ -348,12 +372,13 @@ SPEC = {
              "E6 = end to end: one seeded scenario (260 quick / 2500 thorough / 600 in search rounds; the first 14 are "
              "fixed shapes: statement not idempotent / idempotent x profile with a speculative policy / without, first "
              "answer of every page delayed 300 ms and a success resp. Unavailable, through each of the 7 session APIs) = "
-             "a mock cluster of 2-4 nodes + one real Session + 3-9 logical requests through query_unpaged / "
+             "a mock cluster of 2-4 nodes (40 % with 2 or 3 shards per node and one connection per shard) + one real Session + 3-9 logical requests through query_unpaged / "
              "execute_unpaged / batch / query_single_page / execute_single_page / query_iter / execute_iter (1-3 pages), "
              "idempotence flag, retry policy {Default, DowngradingConsistency, Fallthrough}, speculative policy {none, "
              "Simple(max 1-3, 30 ms)} and consistency (incl. SERIAL / LOCAL_SERIAL) taken from the statement, from an own "
              "execution profile or from the session's default profile; the mock answers the k-th frame of a page with the "
-             "k-th scripted outcome (ERROR frames of the C06 error domain, cut connection, delay, success); per logical "
+             "k-th scripted outcome (ERROR frames of the C06 error domain, unparsable ERROR body, UNPREPARED to an EXECUTE, cut "
+             "connection, delay, success); 1 request in 14 carries a 100 ms client-side request timeout against a 300 ms answer; per logical "
              "request and page the frames the mock received (node, consistency, arrival / answer instants, answer) and the "
              "caller's result and coordinator must be accepted by the extracted checker e2e_check on a certificate the "
              "driver proposes (plan + outcome stream per fiber); "
